@@ -37,6 +37,10 @@ def configs(thorough):
         ("helmholtz_sl", "T2", "T2", ("P", 1, {"include_boundary_dofs": True}), ("P", 1, {"include_boundary_dofs": True}), 1),
         ("helmholtz_dl", "T1", "T2", ("DP", 1, {}), ("DP", 0, {}), 2),
         ("modhelm_dl", "T2", "T1", ("DP", 0, {"segments": [1]}), ("P", 1, {"include_boundary_dofs": True}), 1),
+        # normals swapped on part of the trial grid, continuous trial space with several colours (the assembler walks the
+        # trial elements in colour order, the potential in support order)
+        ("laplace_dl", "T7", "T1", ("P", 1, {"include_boundary_dofs": True, "swapped_normals": [1]}), ("DP", 0, {}), 1),
+        ("helmholtz_dl", "T6", "T1", ("P", 1, {"segments": [1], "include_boundary_dofs": True, "swapped_normals": [1]}), ("DP", 0, {}), 1),
     ]
     if thorough:
         out += [
@@ -51,7 +55,7 @@ def run(ctx):
     import bempp_cl.api as b
     import bempp_cl.api.integration.triangle_gauss as tg
 
-    ctx.bound("grids", "trial grid T1/T2 (T4/T5 thorough) x test grid T1/T2; disjoint by construction (different Grid objects)")
+    ctx.bound("grids", "trial grid T1/T2/T6/T7 (T4/T5 thorough) x test grid T1/T2; disjoint by construction (different Grid objects)")
     ctx.bound("quadrature orders", "regular 1..2 (3 thorough)")
     ctx.out("the electric-field statement (agrees only up to quadrature error)")
     ctx.stub("Green's function = uninterpreted function of (x, y, n_y) (the potential path passes a dummy test normal)")
